@@ -11,11 +11,11 @@ except Exception:
     E2 = []
 
 CLAIMS = {
- "C01": ("Kernel obligations behind exactly-once, in-order delivery: the replay window (one-step induction over every state), packet-number truncation/expansion over the whole RFC window, SendBuffer::poll_transmit range/size arithmetic, final-size discipline of Recv::ingest. Each holds for ALL inputs within the stated bounds.",
+ "C01": ("Kernel obligations behind exactly-once, in-order delivery: the replay window (one-step induction over every state), packet-number truncation/expansion over the whole RFC window, SendBuffer::poll_transmit range/size arithmetic (both branches, full width, via MIR->SMT), final-size discipline of Recv::ingest, one iteration of the Assembler::defragment trimming loop (frontier monotone, nothing kept below it, bytes keep their stream position). Each holds for ALL inputs within the stated bounds.",
          "Partial: retransmission scheduling, loss detection, multi-chunk reassembly, unordered reads and everything needing a Connection are outside the claim (DESIGN §4 C01)."),
  "C03": ("Absence of panic / overflow / out-of-bounds in decoders and peer-driven arithmetic kernels for all inputs in the enumerated structure classes, plus the stated post-conditions (error class, state unchanged on error).",
          "Partial: state-dependent panics inside Connection/Endpoint, CidState, payloads longer than the stated lengths are outside the claim (DESIGN §4 C03)."),
- "C04": ("The replay filter accepts every packet number at most once in any history (one-step induction from an arbitrary window state) and reset-token / constant-time comparison equals byte equality for all inputs.",
+ "C04": ("The replay filter accepts every packet number at most once in any history (one-step induction from an arbitrary window state); reset-token / constant-time comparison equals byte equality for all inputs; every authenticated packet (Retry / Version Negotiation included) is counted by Connection::on_packet_authenticated; the peer's transport parameters are accepted exactly when the connection IDs they echo match the ones seen on the wire (Connection::handle_peer_params, all CID bytes symbolic).",
          "Narrow: the order decrypt -> dedup -> process inside handle_packet, key-phase selection, Retry/VN acceptance and the first-Initial path are Connection code and NOT covered (DESIGN §4 C04, §5)."),
  "C05": ("Step cases of 'never exceed peer limits': write budget = min(limit, max_data - offset, source), connection write_limit, monotone MAX_DATA / MAX_STREAM_DATA / MAX_STREAMS under stale and reordered updates, for all 62-bit values.",
          "Partial: the wire-level sum over all streams, Streams::open (hash map) in E1, 0-RTT remembered limits are outside (DESIGN §4 C05)."),
@@ -23,9 +23,9 @@ CLAIMS = {
          "Partial: CRYPTO buffer limit, TooManyChunks, connection-wide buffered-bytes bound need Connection / the stream map (DESIGN §4 C06)."),
  "C07": ("The anti-amplification predicate: not blocked implies validated or total_sent + bytes <= 3 * total_recvd, for all counters below 2^62.",
          "Narrow: call sites in poll_transmit, crediting of received bytes, stateless reset sizing and the <1200-byte Initial rule are Connection/Endpoint code (DESIGN §4 C07)."),
- "C08": ("Idle-timeout negotiation (min of non-zero values, commutative) and the timer table (next_timeout is the minimum armed instant, expiry predicate, stop disarms only its timer) for all instants/values.",
+ "C08": ("Idle-timeout negotiation (min of non-zero values, commutative) and the timer table (next_timeout is the minimum armed instant, expiry predicate, stop disarms only its timer) for all instants/values; Connection::close_inner (all timers stopped before the close timer is armed, a second close changes nothing), Connection::kill (state Drained, exactly one Drained event), the endpoint's reset-token bookkeeping on ResetToken events, and the idle timeout being negotiated against the received max_idle_timeout - decided on the MIR of the real Connection / Endpoint methods.",
          "Narrow: lifecycle state transitions, exactly-once reporting, drain timing and endpoint forgetting are Connection/Endpoint code (DESIGN §4 C08)."),
- "C09": ("Remote CID bookkeeping: one step of CidQueue::{insert,next} from an arbitrary ring state preserves the invariant (active CID is one the peer issued and has not retired, retired ranges never include it, no unwrap fires).",
+ "C09": ("Remote CID bookkeeping: one step of CidQueue::{insert,next} from an arbitrary ring state preserves the invariant (active CID is one the peer issued and has not retired, retired ranges never include it, no unwrap fires); Connection::update_rem_cid queues exactly the retired range on the Data space and announces the new CID's reset token; Endpoint::handle_event(ResetToken) removes the stored pair and inserts the reported one for the same handle.",
          "Narrow: routing tables (hash maps), CidState, generators are outside (DESIGN §4 C09)."),
  "C10": ("Encode/decode round-trips and decoder totality for varints (all values), packet numbers (whole window), connection IDs (all lengths), frame-type/ECN/stream-id packing, transport parameters and per-frame codecs within stated payload bounds.",
          "Bounds: payloads <= 4-8 bytes, structure (frame type, CID lengths, buffer length) enumerated concretely; HashedConnectionIdGenerator outside (DESIGN §4 C10)."),
@@ -35,13 +35,13 @@ CLAIMS = {
          "Partial: the gate in poll_transmit and exactly-once accounting over ack/loss/discard paths are Connection code (DESIGN §4 C12)."),
  "C13": ("MTU discovery as an inductive invariant: from EVERY state satisfying the representation invariant, one step of poll_transmit / on_acked / on_probe_lost / peer-limit reception / black-hole detection keeps probes within peer and configured limits, raises the estimate only on an acked probe of exactly that size, never drops it below min(min_mtu, peer limit), keeps at most one probe in flight and makes the search terminate.",
          "Partial: every datagram size decision in poll_transmit / PacketBuilder (padding, loss-probe clamp, GSO) is outside (DESIGN §4 C13)."),
- "C14": ("Token validation kernels: for a genuine token presented from a symbolic address at a symbolic time, 'validated' implies address (and port for Retry) equality, lifetime and (NEW_TOKEN) log acceptance; constant-time token comparison = equality.",
+ "C14": ("Token validation kernels: for a genuine token presented from a symbolic address at a symbolic time, 'validated' implies address (and port for Retry) equality, lifetime and (NEW_TOKEN) log acceptance, the reuse log being consulted with the token's own nonce / issue time; constant-time token comparison = equality; the client accepts the server's transport parameters only if initial_src_cid, original_dst_cid and retry_src_cid echo the connection IDs actually used (RFC 9000 7.3, all 20 CID bytes symbolic).",
          "Assumes AEAD authenticity (stub accepts exactly what it sealed); BloomTokenLog, TokenMemoryCache, Retry integrity tag, CID echo check are outside (DESIGN §4 C14)."),
- "C15": ("Two kernels of migration safety: a datagram from an address other than the established one is ignored (nothing credited, counted or processed) unless this is a server whose configuration permits migration - decided for every outcome of the address comparison and of remote_may_migrate; and a path created for a migrated peer starts unvalidated with zeroed amplification counters and nothing in flight, whatever the previous path's state.",
-         "Narrow: path validation (PATH_CHALLENGE/RESPONSE), returning to the previous path within three PTOs, the migration trigger in process_payload are Connection code with loops and are outside the claim."),
+ "C15": ("Three kernels of migration safety: Connection::migrate leaves the new path unvalidated with a pending challenge and the validation timer armed, and replaces the path to fall back to only by a path that was not itself awaiting validation (every connection state, MIR->SMT); a datagram from an address other than the established one is ignored (nothing credited, counted or processed) unless this is a server whose configuration permits migration - decided for every outcome of the address comparison and of remote_may_migrate; and a path created for a migrated peer starts unvalidated with zeroed amplification counters and nothing in flight, whatever the previous path's state.",
+         "Narrow: PATH_CHALLENGE/RESPONSE processing, the PathValidation timeout handler and the migration trigger in process_payload are Connection code with loops and are outside the claim."),
  "C16": ("DatagramState kernels with <= 2 queued datagrams: oldest dropped first, window never exceeded, send-buffer accounting consistent, write emits only what fits.",
          "Partial: Datagrams::{send,max_size} take a Connection; at-most-once under packet duplication is C01.a + handle_packet (DESIGN §4 C16)."),
- "C19": ("Control-message encoder/decoder stay within their buffers and round-trip (level, type, value) for every option subset prepare_msg uses; ECN/stride decoding of symbolic control blocks.",
+ "C19": ("Control-message encoder/decoder stay within their buffers and round-trip (level, type, value) for every option subset prepare_msg uses; ECN/stride decoding of symbolic control blocks; the receive control buffer (cmsg::LEN) holds every set of control messages Linux attaches for the options the socket enables (timestamp, GRO, packet info, TOS/traffic class; IPv4 and IPv6).",
          "cmsg layer only: sockets, GSO/GRO and fallbacks are kernel behaviour behind FFI (DESIGN §4 C19)."),
 }
 
